@@ -25,6 +25,7 @@ fn cubic_abc<T: Sx>(p: &[T]) -> (T, T, T, T) {
 }
 fn inflections<T: Sx, B: Bz<T>>(axis: usize) {
     set_ite_mode(true);
+    check_defined(); // every divisor on every path is non-zero for all control points (the epsilon tests guard them)
     let p = axis_pts::<T>(B::DEG + 1, B::DIM, axis);
     let c = B::of(&p);
     let ts = c.inflections(axis);
